@@ -2,13 +2,19 @@ module mktsverif
 
 go 1.18
 
-require github.com/alpacahq/marketstore/v4 v4.0.0
+require (
+	github.com/alpacahq/marketstore/v4 v4.0.0
+	github.com/alpacahq/rpc v1.3.0
+	github.com/vmihailenco/msgpack v4.0.4+incompatible
+	google.golang.org/grpc v1.46.2
+	google.golang.org/protobuf v1.28.0
+)
 
 require (
-	github.com/alpacahq/rpc v1.3.0 // indirect
 	github.com/antlr/antlr4 v0.0.0-20181031000400-73836edf1f84 // indirect
 	github.com/beorn7/perks v1.0.1 // indirect
 	github.com/cespare/xxhash/v2 v2.1.2 // indirect
+	github.com/chzyer/readline v0.0.0-20180603132655-2972be24d48e // indirect
 	github.com/golang/protobuf v1.5.2 // indirect
 	github.com/klauspost/compress v1.10.4 // indirect
 	github.com/matttproud/golang_protobuf_extensions v1.0.1 // indirect
@@ -17,7 +23,6 @@ require (
 	github.com/prometheus/client_model v0.2.0 // indirect
 	github.com/prometheus/common v0.10.0 // indirect
 	github.com/prometheus/procfs v0.1.3 // indirect
-	github.com/vmihailenco/msgpack v4.0.4+incompatible // indirect
 	go.uber.org/atomic v1.6.0 // indirect
 	go.uber.org/multierr v1.5.0 // indirect
 	go.uber.org/zap v1.15.0 // indirect
@@ -26,8 +31,6 @@ require (
 	golang.org/x/text v0.3.7 // indirect
 	gonum.org/v1/gonum v0.0.0-20190618015908-5dc218f86579 // indirect
 	google.golang.org/genproto v0.0.0-20220527130721-00d5c0f3be58 // indirect
-	google.golang.org/grpc v1.46.2 // indirect
-	google.golang.org/protobuf v1.28.0 // indirect
 	gopkg.in/yaml.v2 v2.4.0 // indirect
 )
 
